@@ -1144,6 +1144,10 @@ def run(ctx: Ctx):
     # reference closure (the rules of C02) is a necessary condition of the round trip: an object that is referenced
     # but not defined in the document is silently dropped on load
     from . import c02
+    # a declared list field of a collection is written element by element (a repeated entry survives the round trip)
+    ctx.rule("R01.9", "the collection's own declared lists are written element by element, not through values()", 3)
+    from .c02 import C02 as _C02, check_own_list_kept
+    check_own_list_kept(ctx, _C02(ctx))
     with ctx.delegated("C02/"):
         c02.run(ctx, who_may_write=False)
     # "with and without an audio directory": the recording paths come back only if the directory given to save / load
